@@ -141,7 +141,7 @@ def paddingOnlyWire (b : Bytes) : Bool :=
    | none => false)
 
 def padPkt (cfg : Packetizer) (p : PktObs) : Bool :=
-  p.padding &&
+  p.padding && p.ssrc == cfg.ssrc &&     -- "continuing the same sequence": same stream
   (match p.marshal with | .ok b => paddingOnlyWire b && b.length == p.marshalSize | _ => false) &&
   (decide (128 ≤ cfg.pt.toNat) || p.roundtrip)
 
